@@ -67,7 +67,9 @@ mod tests {
 
     macro_rules! same {
         ($real:ident, $model:path, $text:expr, $doc:expr) => {{
-            let r = $real($text);
+            // a panic on either side is verdict 99 (the property is violated on this document); it
+            // must then be the SAME on both sides -- the Kani check reports it, not this pre-flight
+            let r = verdict(|| $real($text));
             let d = $doc;
             let m = verdict(move || $model(d));
             assert_eq!(r, m, "real wrapper vs facade model disagree on {}", $text);
